@@ -106,9 +106,14 @@ PROPS['C01'] = dict(modules=['Hagall.Props.C01'], profiles=['mixed', 'comp', 'mo
                     gen_args=['-flags', '-'],
                     topics=slice_of(ALL_TOPICS + ['disconnect'], outs=RELAYS | {'sessionState', 'vikjaState', 'odalState', 'compAddBcast', 'compDeleteBcast', 'compUpdateBcast'}))
 
+PROPS['C08'] = dict(modules=['Hagall.Props.C08'], profiles=['malformed', 'mixed', 'module', 'latency'], n=(160, 3000), focus=None,
+                    tools=['drive', 'extract', 'wire', 'grid'], extra=['wire_harness'],
+                    topics=slice_of(ALL_TOPICS + ['disconnect'], kinds=['outcome', 'state', 'gauge'], pred=lambda d: d.get('kind') != 'delivery'),
+                    trusted=['go/cmd/wire (wire-level scenarios, end-state observers)', 'timing: scenario time limits are generous multiples of the configured idle timeout'])
+
 # every property's obligations include the facts it rests on (regenerated from the source on every run)
 ABS = {'C14': ['Hagall.Gen.AbsCustom'], 'C17': ['Hagall.Gen.AbsFlags'], 'C04': ['Hagall.Gen.AbsDispatch'],
-       'C18': ['Hagall.Gen.AbsLatency'], 'C19': ['Hagall.Gen.AbsChans'], 'C08': ['Hagall.Gen.AbsChans', 'Hagall.Gen.AbsDispatch']}
+       'C18': ['Hagall.Gen.AbsLatency'], 'C19': ['Hagall.Gen.AbsChans'], 'C08': ['Hagall.Gen.AbsChans', 'Hagall.Gen.AbsDispatch', 'Hagall.Gen.AbsLife']}
 for _p, _c in PROPS.items():
     _c['modules'] = _c['modules'] + [f'Hagall.Gen.Ob{_p}'] + ABS.get(_p, [])
     _c.setdefault('tools', ['drive', 'extract'])
